@@ -16,6 +16,9 @@ fi
 export VERIF_REPO=$REPO
 # the harness crate has path dependencies on the repository: point them at the copy
 sed -i "s#path = \"/repo#path = \"$REPO#" harness/Cargo.toml
+# ... and the build output must stay inside the copy
+sed -i "s#target-dir = \"/verif/harness/target\"#target-dir = \"$HERE/harness/target\"#" harness/.cargo/config.toml
+grep -q "$HERE/harness/target" harness/.cargo/config.toml || { echo "could not redirect the target directory"; exit 2; }
 cp $REPO/Cargo.lock harness/Cargo.lock 2>/dev/null
 python3 tools/check.py setup > setup.log 2>&1 || { echo "setup failed"; tail -20 setup.log; exit 2; }
 out=seeded/MATRIX.md
